@@ -14,3 +14,102 @@ OPS['likebatch'] = async (js, table) => {
 };
 
 module.exports = {rbql};
+
+// ---------------------------------------------------------------------------------------------
+// `query <json>`: the REAL rbql-js engine with a counting iterator and a recording writer.
+
+function cell_to_js(c) {
+    if (c === null || typeof c === 'string' || typeof c === 'boolean') return c;
+    if (Array.isArray(c)) return c.map(cell_to_js);
+    if (c && c.n) return c.n[1] === 1 ? c.n[0] : c.n[0] / c.n[1];
+    return c;
+}
+
+function value_to_cell(v) {
+    if (v === null || v === undefined) return null;
+    if (typeof v === 'string' || typeof v === 'boolean') return v;
+    if (typeof v === 'number') return {f: v};
+    if (Array.isArray(v)) return v.map(value_to_cell);
+    return {other: typeof v};
+}
+
+class CountingIterator extends rbql.TableIterator {
+    constructor(table, column_names) { super(table, column_names); this.pulled = 0; }
+    async get_record() {
+        const r = await super.get_record();
+        if (r !== null) this.pulled += 1;
+        return r;
+    }
+}
+
+class RecordingWriter extends rbql.RBQLOutputWriter {
+    constructor(refuse_from) {
+        super();
+        this.rows = []; this.writes = 0; this.refuse_from = refuse_from; this.after_refusal = 0; this.finished = 0;
+        this.header = null; this.set_header_calls = 0; this.header_after_write = false;
+    }
+    async write(fields) {
+        this.writes += 1;
+        if (this.refuse_from !== null && this.writes >= this.refuse_from) {
+            if (this.writes > this.refuse_from) this.after_refusal += 1;
+            return false;
+        }
+        this.rows.push(fields);
+        return true;
+    }
+    async finish() { this.finished += 1; }
+    set_header(header) { this.set_header_calls += 1; if (this.writes) this.header_after_write = true; this.header = header; }
+    get_warnings() { return []; }
+}
+
+function classify_error(e) {
+    const msg = String(e && e.message !== undefined ? e.message : e);
+    const name = e && e.constructor ? e.constructor.name : 'Error';
+    let m;
+    if (name === 'RbqlRuntimeError') {
+        if ((m = /No "a(\d+)" field at record (\d+)/.exec(msg))) return ['runtime', parseInt(m[2]), parseInt(m[1])];
+        if ((m = /No field with index (\d+) at record (\d+) in "B" table/.exec(msg))) return ['joinB', parseInt(m[2]), parseInt(m[1])];
+        if ((m = /At record (\d+)/.exec(msg))) return ['runtime', parseInt(m[1]), null];
+        return ['runtime-other', msg.slice(0, 120)];
+    }
+    if (name === 'RbqlParsingError') {
+        if (msg.indexOf('Only one UNNEST') != -1) return ['parsing', 'unnest-twice'];
+        if (msg.indexOf('not allowed in aggregate queries') != -1) return ['parsing', 'agg-order-distinct'];
+        return ['parsing', 'other: ' + msg.slice(0, 120)];
+    }
+    if (name === 'RbqlIOHandlingError') return ['io', msg.slice(0, 120)];
+    return ['exception', name, msg.slice(0, 120)];
+}
+
+function snapshot(t) { return JSON.stringify(t); }
+
+base.RAW_OPS['query'] = async (payload) => {
+    const c = JSON.parse(payload);
+    const A = c.A.map(r => r.map(cell_to_js));
+    const B = (c.B === undefined || c.B === null) ? null : c.B.map(r => r.map(cell_to_js));
+    const a_rows = A.slice();                 // identities of the caller's rows
+    const snapA = snapshot(A), snapB = snapshot(B);
+    const it = new CountingIterator(A, c.header_a || null);
+    const w = new RecordingWriter(c.q.refuse === undefined ? null : c.q.refuse);
+    const warnings = [];
+    const registry = B === null ? null : new rbql.SingleTableRegistry(B, c.header_b || null);
+    let err = null;
+    try {
+        await rbql.query(c.js, it, w, warnings, registry);
+    } catch (e) {
+        err = classify_error(e);
+    }
+    const mutated = snapshot(A) !== snapA || snapshot(B) !== snapB;
+    let aliased = false;
+    for (const r of w.rows) { if (a_rows.indexOf(r) != -1 || (B !== null && B.indexOf(r) != -1)) aliased = true; }
+    if (err !== null) return JSON.stringify({err: err, sourcesMutated: mutated});
+    const own = it.get_warnings();
+    const parse_fw = (msg) => { const m = /record (\d+) -> (\d+) fields, record (\d+) -> (\d+) fields/.exec(msg); return m ? [parseInt(m[2]), parseInt(m[1]), parseInt(m[4]), parseInt(m[3])] : ['unparsed', msg.slice(0, 80)]; };
+    const rest = warnings.slice(own.length);
+    const fw = rest.filter(x => x.indexOf('Number of fields') != -1);
+    const other = rest.filter(x => x.indexOf('Number of fields') == -1);
+    let d = {rows: w.rows.map(r => r.map(value_to_cell)), err: null, pulled: it.pulled, writes: w.writes, afterRefusal: w.after_refusal, finished: w.finished,
+             warnA: own.length ? parse_fw(own[0]) : null, warnB: fw.length ? parse_fw(fw[0]) : null, sourcesMutated: mutated, outputAliasesInput: aliased};
+    if (other.length) d.otherWarnings = other;
+    return JSON.stringify(d);
+};
